@@ -131,7 +131,7 @@ Theorem server_request_exact own ps bs fs :
                     if limit_in_force ps <? 42 then None else Some refusal_section).
 Proof.
   intros Hwf Hr. destruct (recv_section_exact lim_recv_request_decomp_code own ps bs fs Hwf Hr) as [H1 H2].
-  unfold server_recv_request, lim_recv_request_own, lim_recv_request_decomp_code. split.
+  unfold server_recv_request, lim_recv_request_own. split.
   - intros Hle. rewrite (H1 Hle). reflexivity.
   - intros Hlt. destruct (H2 Hlt) as (n & Hn & E). rewrite E, send_response_refusal.
     destruct (N.ltb_spec (limit_in_force ps) 42) as [Hsmall|Hbig].
@@ -149,7 +149,7 @@ Theorem client_response_exact own ps bs fs :
        {| ro_result := RecvTooBig n own; ro_written := None; ro_stop := Some H3_REQUEST_CANCELLED |}).
 Proof.
   intros Hwf Hr. destruct (recv_section_exact lim_recv_response_decomp_code own ps bs fs Hwf Hr) as [H1 H2].
-  unfold client_recv_response, lim_recv_response_own, lim_recv_response_decomp_code. split.
+  unfold client_recv_response, lim_recv_response_own. split.
   - intros Hle. rewrite (H1 Hle). reflexivity.
   - intros Hlt. destruct (H2 Hlt) as (n & Hn & E). rewrite E. exists n. split; [exact Hn|reflexivity].
 Qed.
@@ -166,7 +166,7 @@ Theorem trailers_exact own ps bs fs :
        {| ro_result := RecvTooBig n own; ro_written := None; ro_stop := Some H3_REQUEST_CANCELLED |}).
 Proof.
   intros Hwf Hr. destruct (recv_section_exact lim_recv_trailers_decomp_code own ps bs fs Hwf Hr) as [H1 H2].
-  unfold server_recv_trailers, client_recv_trailers, lim_recv_trailers_own, lim_recv_trailers_decomp_code. split.
+  unfold server_recv_trailers, client_recv_trailers, lim_recv_trailers_own. split.
   - intros Hle. rewrite (H1 Hle). split; reflexivity.
   - intros Hlt. destruct (H2 Hlt) as (n & Hn & E). rewrite E. exists n. repeat split; auto.
 Qed.
@@ -297,8 +297,7 @@ Proof.
   change QPACK_DECOMPRESSION_FAILED with 512 in Hin.
   destruct (G 512) as [E|(a & m & E)]; rewrite E in Hin.
   - cbn in Hin. intuition (subst; auto).
-  - destruct (send_response own ps refusal_fields); destruct lim_refusal_send_error_propagates; cbn in Hin;
-      intuition (subst; eauto).
+  - rewrite send_response_refusal in Hin. destruct (limit_in_force ps <? 42); cbn in Hin; intuition (subst; eauto).
 Qed.
 
 (* without a limit in the way (limit >= everything decoded so far is impossible to state per prefix; the common case:
